@@ -6,6 +6,12 @@ use crate::core::{Case, Ctx, Stats, Tier, Verdict};
 pub mod c01;
 pub mod c02;
 pub mod c03;
+pub mod c04;
+pub mod c05;
+pub mod c06;
+pub mod c07;
+pub mod c08;
+pub mod refjudge;
 pub mod workload;
 
 pub trait Monitor: Sync + Send {
@@ -34,7 +40,7 @@ pub trait Monitor: Sync + Send {
 }
 
 pub fn registry() -> Vec<Box<dyn Monitor>> {
-    vec![Box::new(c01::C01), Box::new(c02::C02), Box::new(c03::C03)]
+    vec![Box::new(c01::C01), Box::new(c02::C02), Box::new(c03::C03), Box::new(c04::C04), Box::new(c05::C05), Box::new(c06::C06), Box::new(c07::C07), Box::new(c08::C08)]
 }
 
 pub fn find(id: &str) -> Option<Box<dyn Monitor>> {
